@@ -160,7 +160,10 @@ def gen_logical(rng, uid, kind='convertible'):
     if kind == 'custom_primitive':
         lp['rules'].append(['cust', ['Custom', {'value': rng.choice([1, 'z', None])}]])
     elif kind == 'custom_nonprimitive':
-        lp['rules'].append(['cust', ['Custom', {'value': {'py/object': 'harness.customrules.ConstRule', 'value': 1}}]])
+        # state that 1.1.0 cannot hold: a nested object, or any other jsonpickle-tagged value (set, tuple, type, ...)
+        lp['rules'].append(['cust', ['Custom', {'value': rng.choice([
+            {'py/object': 'harness.customrules.ConstRule', 'value': 1}, {'py/set': [1, 2]}, {'py/tuple': ['a', 'b']},
+            {'py/type': 'builtins.int'}])}]])
     elif kind == 'regexmatchrule':
         lp['rules'].append(['rx', ['RegexMatchRule', '^a+$']])
     elif kind == 'new_only':
